@@ -664,6 +664,13 @@ impl Check for Heap {
     fn describe_case(&mut self, ctx: &Ctx, idx: u64) -> String {
         self.program_text(ctx, idx).1
     }
+    // (the long runs take a minute or two of CPU time each under the shadow heap: that is work, not a hang)
+    fn chunk_timeout_s(&self, _ctx: &Ctx) -> u64 {
+        1_800
+    }
+    fn case_timeout_s(&self, _ctx: &Ctx) -> u64 {
+        600
+    }
 
     fn run_case(&mut self, ctx: &Ctx, idx: u64, st: &mut Stats) {
         let (f, name, i) = self.fams(ctx).locate(idx);
